@@ -437,7 +437,7 @@ def path_equivalence(name, path):
     from mako.runtime import Context
     from mako import util
     files = _C08[name]
-    data = {"x": "Xé"}
+    data = {"x": " X = é "}       # blanks and an equals sign: the value must arrive unchanged on every path, the command line included
     ref_lk = TemplateLookup()
     for k, v in files.items():
         ref_lk.put_string(k, v)
@@ -486,6 +486,41 @@ def _path_equivalence_inner(name, path, files, data, ref_lk, ref, root, mods):
             t = lk.get_template("/t")
             mt = ModuleTemplate(t.module, lookup=lk, template_filename=t.filename, template_source=t.source)
             got = mt.render_unicode(**data)
+        elif path == "mako_render":
+            # the mako-render command with the same variables
+            import io
+            import sys
+            from mako import cmd
+            saved = sys.stdout
+            sys.stdout = buf = io.StringIO()
+            try:
+                cmd.cmdline(["--template-dir", root] + [a for k, v in data.items() for a in ("--var", "%s=%s" % (k, v))] + [os.path.join(root, "t")])
+            finally:
+                sys.stdout = saved
+            # mako-render names the template by its file path (there is no URI on the command line): a template that prints its
+            # own uri prints that path
+            got = buf.getvalue().replace(root, "")
+        elif path == "moved_source":
+            # compiled into a module directory, then the template directory is renamed (mtimes unchanged, the module file is
+            # re-used) and an unrelated file appears at the old place: source / code / output are still this template's own
+            import shutil
+            lk = TemplateLookup([root], module_directory=mods)
+            t1 = lk.get_template("/t")
+            first = (t1.render_unicode(**data), t1.source, t1.code)
+            root2 = root + "-moved"
+            os.rename(root, root2)
+            os.makedirs(root)
+            with open(os.path.join(root, "t"), "w") as fp:
+                fp.write("an unrelated file at the old location")
+            try:
+                t2 = TemplateLookup([root2], module_directory=mods).get_template("/t")
+                second = (t2.render_unicode(**data), t2.source, t2.code)
+            finally:
+                shutil.rmtree(root, ignore_errors=True)
+                os.rename(root2, root)
+            if second[1:] != first[1:]:
+                return ("source/code after the move: %r" % (second[1][:60],), "source/code before the move: %r" % (first[1][:60],))
+            got = second[0]
         elif path == "get_def":
             # the def rendered on its own must give what it gives when called from the body
             got = TemplateLookup([root]).get_template("/t").get_def("d").render_unicode(**data)
